@@ -619,6 +619,14 @@ class DiscoveryComputation(MessagePassingComputation):
 
     def _on_computation_added(self, _: DiscoveryName,
                               msg: PublishComputationMessage):
+        own_agent = self.discovery.own_agent
+        if msg.agent != own_agent and \
+                self.discovery._computations_data.get(msg.computation) \
+                == own_agent:
+            # Stale notification (e.g. the answer to a subscription made
+            # before the computation was deployed here): we host this
+            # computation ourselves and know better.
+            return
         self.discovery.register_computation(msg.computation, msg.agent,
                                             msg.address, publish=False)
 
